@@ -5,6 +5,7 @@ import (
 	"errors"
 	"fmt"
 	"io"
+	"strings"
 	"time"
 
 	"github.com/lxzan/gws"
@@ -248,7 +249,7 @@ func runC05(c *Ctx) error {
 			case "file":
 				if pd.Enabled {
 					c.addCase("C05filez", VL{cfgVal(spec, conn), VN(op.Opcode), VB(payload), VN(obs.CpsCap), VB(obs.CpsBefore), VB(obs.Wire), VB(obs.CpsAfter), VN(obs.Res)}, tag)
-				} else {
+				} else if op.Reader != nil { // (a standard reader keeps no log of its Read calls: oracle only)
 					reads := VL{}
 					for _, r := range op.Reader.log[readsBefore:] {
 						reads = append(reads, VL{VB(r.Data), vbool(r.EOF)})
@@ -317,6 +318,14 @@ func runC05(c *Ctx) error {
 					send(sendOp{API: "file", Opcode: 1 + fi%2, Reader: newChunkReader(cs, mode)}, "chunks="+fmt.Sprint(chunks)+" "+mode)
 				}
 			}
+		}
+		// streamed sends from the standard library's readers, which know their length (a library may take shortcuts for
+		// short ones): sizes around the compression threshold and the control-frame limit
+		for _, n := range []int{0, 1, 100, 125, 126, 511, 512, 513, 5000} {
+			pl := textPayload(c, n, nil)
+			send(sendOp{API: "file", Opcode: 1, Slices: [][]byte{pl}, StdReader: bytes.NewReader(pl)}, fmt.Sprintf("bytes.Reader len=%d", n))
+			send(sendOp{API: "file", Opcode: 2, Slices: [][]byte{pl}, StdReader: bytes.NewBuffer(append([]byte(nil), pl...))}, fmt.Sprintf("bytes.Buffer len=%d", n))
+			send(sendOp{API: "file", Opcode: 1, Slices: [][]byte{pl}, StdReader: strings.NewReader(string(pl))}, fmt.Sprintf("strings.Reader len=%d", n))
 		}
 		// directed histories.  (h1) frames that go out UNCOMPRESSED through a Broadcaster (a ping, a data payload below the
 		// threshold) followed by a message that repeats their content: nothing of them may be in the sender's LZ77 history
